@@ -47,6 +47,8 @@ struct Resolver {
     docs: BTreeMap<Id, String>,
     categories: BTreeMap<Id, String>,
     errors: Vec<String>,
+    /// Definitions at which a dependency cycle was found.
+    cyclic: BTreeSet<Id>,
 }
 
 impl Resolver {
@@ -139,6 +141,7 @@ impl Resolver {
         if self.temp_marks.get(id).is_some() {
             self.errors
                 .push(format!("Unit {} has a dependency cycle", id));
+            self.cyclic.insert(id.clone());
             return;
         }
         if self.unmarked.get(id).is_some() {
@@ -291,6 +294,7 @@ pub(crate) fn load_defs(ctx: &mut Context, defs: Defs) -> Vec<String> {
         docs: BTreeMap::new(),
         categories: BTreeMap::new(),
         errors: Vec::new(),
+        cyclic: BTreeSet::new(),
     };
     for DefEntry {
         name,
@@ -389,6 +393,12 @@ pub(crate) fn load_defs(ctx: &mut Context, defs: Defs) -> Vec<String> {
     let mut quantities = BTreeMap::new();
 
     for (id, def) in udefs {
+        if resolver.cyclic.contains(&id) {
+            // Already reported. Evaluating it anyway could pick up a value of
+            // the same name left by an earlier file and store a definition
+            // that refers to itself.
+            continue;
+        }
         let name = id.name.to_string();
         match *def {
             Def::BaseUnit { ref long_name } => {
